@@ -21,6 +21,7 @@ def check(run, tier):
     r = rng("C04")
     progs = targeted.worklist_programs("evo") + targeted.shape_programs("fluent") + targeted.shape_programs("evo")
     progs += targeted.round2_programs("evo") + targeted.round2_programs("fluent")
+    progs += evo.targeted_programs()  # script commands with wells, tips and per-tip volumes in every order: each well is booked with ITS volume
     progs += evo.rounding_programs()  # script commands: the labware is booked with what was asked for, not with the rounded text
     n = 150 if q else 3000
     for i in range(n):
